@@ -22,13 +22,16 @@ import (
 )
 
 func (dec *Decoder) readObjectAsMap(structInfo structInfo) map[string]interface{} {
-	m := make(map[string]interface{}, len(structInfo.names))
+	m := make(map[string]interface{}, sizeHint(len(structInfo.names)))
 	t := reflect2.TypeOf(m).(*reflect2.UnsafeMapType)
 	if !dec.IsSimple() {
 		dec.refer.Add(m)
 	}
 	ptr := reflect2.PtrOf(&m)
 	for _, name := range structInfo.names {
+		if dec.Error != nil {
+			break
+		}
 		var v interface{}
 		dec.decodeInterface(dec.NextByte(), &v)
 		t.UnsafeSetIndex(ptr, reflect2.PtrOf(name), reflect2.PtrOf(&v))
@@ -42,6 +45,9 @@ func (dec *Decoder) readObject(structInfo structInfo) interface{} {
 	dec.AddReference(obj)
 	ptr := reflect2.PtrOf(obj)
 	for _, name := range structInfo.names {
+		if dec.Error != nil {
+			break
+		}
 		if field, ok := structInfo.fields[name]; ok {
 			field.Decode(dec, field.Type.Type1(), field.Field.UnsafeGet(ptr))
 		} else {
@@ -97,6 +103,9 @@ func (valdec *structDecoder) decodeObject(dec *Decoder, p interface{}) {
 	dec.AddReference(p)
 	ptr := reflect2.PtrOf(p)
 	for _, name := range structInfo.names {
+		if dec.Error != nil {
+			break
+		}
 		valdec.decodeField(dec, ptr, name)
 	}
 	dec.Skip()
@@ -106,7 +115,7 @@ func (valdec *structDecoder) decodeMapAsObject(dec *Decoder, p interface{}) {
 	ptr := reflect2.PtrOf(p)
 	count := dec.ReadCount()
 	dec.AddReference(p)
-	for i := 0; i < count; i++ {
+	for i := 0; i < count && dec.Error == nil; i++ {
 		var name string
 		dec.decodeString(stringType, dec.NextByte(), &name)
 		valdec.decodeField(dec, ptr, name)
